@@ -13,14 +13,15 @@
 //   the continuation closure of thenImpl (copy.wait(); f(std::move(copy))), Future copy / move /
 //   destruction, CompletionEventImpl::notify, allocSmallBuffer / deallocSmallBuffer front end.
 //
-// Threads: completer (runs the antecedent's stored run closure: the real FutureImplBase::run()),
-// registrar(s) (call then() on their own copy of the antecedent), main (drops its reference early or
-// late, and after the threads finished plays the continuation's executor: runs the continuation's
-// run closure that the model schedulable stored).  Every atomic operation of run() / then() is a
-// scheduling point.
+// Threads (concurrent mode): registrar(s) (model thread 1, 2: call then() on their own copy of the
+// antecedent, then drop the copy), completer (last model thread: runs the body of the antecedent's
+// queued run closure, the real FutureImplBase::run()), main (drops its reference early or late, and
+// after the threads finished plays the continuation schedulable's worker).  Every atomic operation
+// of run() / then() is a scheduling point.
 //
-// Model schedulables: see harness/C18/future.cpp (typed slot; the closure `[this]{ run(); }` is
-// resolved to a direct call of the real run()).
+// Model schedulables: both only take the OnceFunction (the closure `[this]{ run(); }` of
+// makeOnceFunction is resolved to a direct call of the real run(), see harness/C18/future.cpp);
+// the continuation's schedulable records who dispatched, in which state, and how often.
 #include <chrono>
 #include <cstdlib>
 #include <new>
@@ -36,6 +37,16 @@
 #ifndef VF_CHECK_POOL
 #define VF_CHECK_POOL 1
 #endif
+#ifndef VF_TAIL
+// what main does once every thread finished: 0 = only the dispatch checks; 1 = run the dispatched
+// continuation closures, drop every reference, the allocation ledger must be empty; 2 = additionally
+// get() on each continuation future and compare the delivered value
+#define VF_TAIL 2
+#endif
+#ifndef VF_CONT_GET
+// how the continuation body reads its antecedent: 1 = get(); 0 = is_ready() + the stored result
+#define VF_CONT_GET 1
+#endif
 #define VF_MAXBLK (1 + 2 * VF_REGISTRARS)
 #include "../C18/sba_stub.h"
 
@@ -45,6 +56,8 @@ using FutA = dispenso::Future<RA>;
 using FutC = dispenso::Future<RC>;
 using ImplA = dispenso::detail::FutureImplBase<RA>;
 using ImplC = dispenso::detail::FutureImplBase<RC>;
+
+enum { kCompleterTid = VF_REGISTRARS + 1 };  // model thread ids follow the spawn order
 
 static int32_t g_runsA;
 static int32_t g_val;
@@ -68,55 +81,59 @@ struct Cont {
     vf_check(g_runsC[id] == 1, "continuation is invoked a second time");
     vf_check(g_runsA == 1, "continuation runs although the antecedent's functor has not run");
     vf_check(a.valid() && a.is_ready(), "continuation runs although its antecedent is not ready");
+#if VF_CONT_GET
     RC v = a.get();
+#else
+    RC v = a.impl_->result();
+#endif
     vf_check(v == g_val, "continuation sees the antecedent's result");
     return 2 * v + 1 + id;
   }
 };
 
-// antecedent's schedulable: always queues
+// antecedent's schedulable: always queues (the completer thread is its worker)
 struct SchedA {
-  dispenso::OnceFunction slot;
-  bool full = false;
-  void schedule(dispenso::OnceFunction f) {
-    slot = std::move(f);
-    full = true;
+  int32_t n = 0;
+  void schedule(dispenso::OnceFunction) {
+    ++n;
   }
-  void schedule(dispenso::OnceFunction f, dispenso::ForceQueuingTag) {
-    slot = std::move(f);
-    full = true;
+  void schedule(dispenso::OnceFunction, dispenso::ForceQueuingTag) {
+    ++n;
   }
 };
 static SchedA g_schedA;
 
-static int g_who;  // sequential mode: the role main is playing (1 completer, 2.. registrar)
+static int32_t g_order;  // which path dispatched (bit 1 completer, 2 registrar re-check, 4 then() at once)
+static int g_who;  // sequential mode: the role main is playing (kCompleterTid completer, else registrar)
 // continuation's schedulable: queues; records who dispatched and in which state
 struct SchedC {
-  dispenso::OnceFunction slot[2];
   int32_t n = 0;
   int32_t forced = 0;
-  void put(dispenso::OnceFunction& f) {
+  void put() {
     VfAtomic a;
     vf_check(g_implA->ready(), "continuation is dispatched to its schedulable although the antecedent is not ready");
     vf_check(n < VF_REGISTRARS, "more continuations dispatched than registered (a continuation is dispatched twice)");
-    if (n < 2) {
-      slot[n] = std::move(f);
-    }
     ++n;
-    if ((VF_SEQ_ORDER ? g_who : vf_self()) == 1) {
+    // (three separate statements: if/else-if arms would be merged into one call with a non-literal label)
+    bool byCompleter = (VF_SEQ_ORDER ? g_who : vf_self()) == kCompleterTid;
+    if (byCompleter) {
       vf_reach("continuation dispatched by the completing thread (registered before completion)");
-    } else if (g_links > 0) {
+    }
+    g_order |= byCompleter ? 1 : (g_links > 0 ? 2 : 4);
+    if (!byCompleter && g_links > 0) {
       vf_reach("continuation dispatched by the registrar's re-check (registered during completion)");
-    } else {
+    }
+    g_order |= 8;
+    if (!byCompleter && g_links == 0) {
       vf_reach("continuation dispatched by then() at once (registered after completion)");
     }
   }
-  void schedule(dispenso::OnceFunction f) {
-    put(f);
+  void schedule(dispenso::OnceFunction) {
+    put();
   }
-  void schedule(dispenso::OnceFunction f, dispenso::ForceQueuingTag) {
+  void schedule(dispenso::OnceFunction, dispenso::ForceQueuingTag) {
     ++forced;
-    put(f);
+    put();
   }
 };
 static SchedC g_schedC;
@@ -156,8 +173,10 @@ static void registrar1(void*) {
 extern "C" void vf_main() {
   g_async[0] = vf_nondet_bool();
   g_deferred[0] = vf_nondet_bool();
+#if VF_REGISTRARS >= 2
   g_async[1] = vf_nondet_bool();
   g_deferred[1] = vf_nondet_bool();
+#endif
   bool dropEarly = vf_nondet_bool();
   g_val = (int32_t)vf_nondet_u32();
 
@@ -175,25 +194,25 @@ extern "C" void vf_main() {
     if (dropEarly) {
       g_a[0].f.~FutA();
     }
-    g_who = 2;
+    g_who = 1;
     if (pos >= 1) registrar0(nullptr);
 #if VF_REGISTRARS >= 2
     if (pos >= 2) registrar1(nullptr);
 #endif
-    g_who = 1;
+    g_who = kCompleterTid;
     completer(nullptr);
-    g_who = 2;
+    g_who = 1;
     if (pos < 1) registrar0(nullptr);
 #if VF_REGISTRARS >= 2
     if (pos < 2) registrar1(nullptr);
 #endif
   }
 #else
-  vf_spawn(completer, nullptr);
   vf_spawn(registrar0, nullptr);
 #if VF_REGISTRARS >= 2
   vf_spawn(registrar1, nullptr);
 #endif
+  vf_spawn(completer, nullptr);
   if (dropEarly) {
     g_a[0].f.~FutA();
   }
@@ -207,17 +226,21 @@ extern "C" void vf_main() {
   vf_check(g_schedC.forced == wantForced, "std::launch::async continuations are dispatched with the forcing tag, others without");
   vf_check(g_runsC[0] == 0 && g_runsC[1] == 0, "continuations do not run before their schedulable runs them (nobody waited on them)");
   vf_check(g_links == g_link_frees, "every then-chain link was released");
+  vf_check(g_implA->thenChain_.load(std::memory_order_relaxed) == nullptr, "the then-chain is empty once completer and registrars finished");
 
-  // main plays the continuation schedulable's worker: run the stored run closures
+#if VF_TAIL >= 1
+  // main plays the continuation schedulable's worker: run the dispatched run closures
   for (int k = 0; k < VF_REGISTRARS; ++k) {
     ImplC* ic = g_c[k].f.impl_;
     vf_check(!g_c[k].f.is_ready(), "continuation future is not ready before its functor ran");
     ic->run();
     vf_check(g_runsC[k] == 1, "continuation ran exactly once");
     vf_check(g_c[k].f.is_ready(), "continuation future is ready after its functor ran");
+#if VF_TAIL >= 2
     RC r = g_c[k].f.get();
     vf_check(r == 2 * (RC)g_val + 1 + k, "continuation future delivers the continuation's result");
     vf_check(g_runsC[k] == 1, "get() on the continuation future does not run the continuation again");
+#endif
     g_c[k].f.~FutC();
   }
   if (!dropEarly) {
@@ -225,5 +248,6 @@ extern "C" void vf_main() {
     g_a[0].f.~FutA();
   }
   vf_check(g_live_blocks == 0, "all shared states and then-chain links are released after the last reference is dropped");
+#endif
   vf_reach("end of harness");
 }
